@@ -60,8 +60,7 @@ def make_case(seed, tier):
     coll(ref_inst.expand_module(mod))
     ignore = []
     if r.random() < 0.5 and cpps:
-        # classes with class-scoped enums are not ignored in the clean workload (known finding D34)
-        cand = [c for c, has_enum in cpps if not has_enum]
+        cand = [c for c, has_enum in cpps]      # incl. classes with class-scoped enums (D34, repaired)
         ignore = r.sample(cand, min(len(cand), r.choice([1, 1, 2, 3])))
     if r.random() < 0.3:
         ignore.append(r.choice(['NoSuchClass', 'ns::Nope', 'a::B<int>', '']))
